@@ -46,7 +46,7 @@ func checkC04(c *Ctx, p *Prog, r *Result) {
 // array lets the second extension overwrite the entry written by the first.
 func c04ExtensionFresh(p *Prog, r *Result) {
 	rule := "C04.extension-does-not-alias"
-	r.rule(rule, "every builtin append whose slice operand is loaded from the field Voucher.Entries (library packages) takes an operand whose capacity was clipped or that was freshly allocated: a 3-index slice with max, slices.Clip, slices.Clone, make, or append to a nil/fresh slice — otherwise two extensions of the same voucher share a backing array and the later one overwrites the earlier one's entry")
+	r.rule(rule, "every builtin append whose slice operand is loaded from the field Voucher.Entries, or whose result is stored into that field (library packages), takes an operand whose capacity was clipped or that was freshly allocated: a 3-index slice with max, slices.Clip, slices.Clone, make, or append to a nil/fresh slice — otherwise two extensions of the same voucher share a backing array and the later one overwrites the earlier one's entry")
 	var fresh func(v ssa.Value, depth int) bool
 	fresh = func(v ssa.Value, depth int) bool {
 		if depth > 4 {
@@ -61,16 +61,48 @@ func c04ExtensionFresh(p *Prog, r *Result) {
 			return x.IsNil()
 		case *ssa.ChangeType:
 			return fresh(x.X, depth+1)
+		case *ssa.UnOp:
+			// loaded from the Entries field of an object that a callee built with
+			// a fresh slice in that field (a deep-copying clone helper)
+			fa, ok := x.X.(*ssa.FieldAddr)
+			if !ok || x.Op != token.MUL {
+				return false
+			}
+			src, ok := fa.X.(*ssa.Call)
+			if !ok {
+				return false
+			}
+			cal := p.body(src.Call.StaticCallee())
+			if cal == nil {
+				return false
+			}
+			stores := 0
+			for _, b := range cal.Blocks {
+				for _, in := range b.Instrs {
+					st, ok := in.(*ssa.Store)
+					if !ok {
+						continue
+					}
+					if fa2, ok := st.Addr.(*ssa.FieldAddr); ok && fieldName(fa2.X.Type(), fa2.Field) == "fdo.Voucher.Entries" {
+						stores++
+						if !fresh(st.Val, depth+1) {
+							return false
+						}
+					}
+				}
+			}
+			return stores > 0
 		case *ssa.Call:
 			if b, ok := x.Call.Value.(*ssa.Builtin); ok && b.Name() == "append" && len(x.Call.Args) > 0 {
 				return fresh(x.Call.Args[0], depth+1)
 			}
-			if cal := x.Call.StaticCallee(); cal != nil && cal.Pkg != nil && cal.Pkg.Pkg.Path() == "slices" {
-				n := cal.Name()
+			if cal := x.Call.StaticCallee(); cal != nil {
 				if o := cal.Origin(); o != nil {
-					n = o.Name()
+					cal = o
 				}
-				return n == "Clip" || n == "Clone"
+				if cal.Pkg != nil && cal.Pkg.Pkg.Path() == "slices" {
+					return cal.Name() == "Clip" || cal.Name() == "Clone"
+				}
 			}
 		}
 		return false
@@ -98,8 +130,13 @@ func c04ExtensionFresh(p *Prog, r *Result) {
 		case *ssa.ChangeType:
 			return fromEntries(x.X, depth+1)
 		case *ssa.Call:
-			if cal := x.Call.StaticCallee(); cal != nil && cal.Pkg != nil && cal.Pkg.Pkg.Path() == "slices" && len(x.Call.Args) > 0 {
-				return fromEntries(x.Call.Args[0], depth+1)
+			if cal := x.Call.StaticCallee(); cal != nil && len(x.Call.Args) > 0 {
+				if o := cal.Origin(); o != nil {
+					cal = o
+				}
+				if cal.Pkg != nil && cal.Pkg.Pkg.Path() == "slices" {
+					return fromEntries(x.Call.Args[0], depth+1)
+				}
 			}
 		}
 		return false
@@ -119,7 +156,15 @@ func c04ExtensionFresh(p *Prog, r *Result) {
 				if !ok || bi.Name() != "append" || len(call.Call.Args) == 0 {
 					continue
 				}
-				if !fromEntries(call.Call.Args[0], 0) {
+				storedToEntries := false
+				for _, ref := range *call.Referrers() {
+					if st, ok := ref.(*ssa.Store); ok && st.Val == ssa.Value(call) {
+						if fa, ok := st.Addr.(*ssa.FieldAddr); ok && fieldName(fa.X.Type(), fa.Field) == "fdo.Voucher.Entries" {
+							storedToEntries = true
+						}
+					}
+				}
+				if !fromEntries(call.Call.Args[0], 0) && !storedToEntries {
 					continue
 				}
 				construct := "append to Voucher.Entries in " + p.FuncName(fn)
